@@ -18,8 +18,8 @@ type Item struct {
 func (i Item) String() string { return i.Kind + ":" + i.Key }
 
 var (
-	annKeys   = []string{"a0", "a1", "a2", "a3", "io.k/x", "b-c"}
-	envKeys   = []string{"E0", "E1", "E2", "E3", "PATH", "E_5"}
+	annKeys   = []string{"a0", "a1", "a2", "a3", "io.k/x", "b-c", "A0"}       // "A0" / "a0": names are compared as written
+	envKeys   = []string{"E0", "E1", "E2", "E3", "PATH", "E_5", "e0", "Path"} // "e0" / "E0", "Path" / "PATH": different variables
 	mountDsts = []string{"/m0", "/m1", "/m2", "/m0/sub", "/m1/a/b", "/data", "/m2/x", "/mn3/", "/mn4//y", "/mn5/./z", "/mn3", "/data/"} // "/mn3/", "/mn4//y", "/mn5/./z", "/data/" are not in filepath.Clean form; "/mn3" and "/mn3/", "/data" and "/data/" are two spellings of one path and are DIFFERENT items (destinations are compared as written)
 	devPaths  = []string{"/dev/d0", "/dev/d1", "/dev/d2", "/dev/d3", "/dev/sub/../d4", "/dev/d4"} // the last two spell one path in two ways: different items
 	cdiNames  = []string{"vendor.com/dev=c0", "vendor.com/dev=c1", "vendor.com/dev=c2", "x.org/y=z"}
